@@ -92,7 +92,7 @@ Definition Link (q : pos) (s : st) : Prop :=
   plans s = map (@FList P) (p_fl q) ++ [FUser pid (p_p q) (p_started q)] /\
   uid_supply s = a_next (p_acur q) /\
   BR (bundlers s) (p_a0 q) (p_acur q) (p_aend q) /\
-  exc_slot s = None /\ stashed s = None /\ deferred s = false /\ rewindable s = true /\
+  exc_slot s = None /\ stashed s = None /\ True /\ rewindable s = true /\
   record_intr s = false /\ main_err s = None.
 
 Definition Docs (q : pos) (os : list obs) : Prop :=
@@ -119,8 +119,10 @@ Inductive Inv (s : st) (os : list obs) : Prop :=
              last_msg None os = Some m -> Inv s os
   | I_ps q : Core q s os -> state s = Pausing -> pc s = PcSleep0 -> must_cancel s = true -> interrupted s = true ->
              p_infl q = [] -> RespsOK (S (List.length (p_fl q))) s -> Inv s os
-  | I_pc q k m : Core q s os -> state s = Pausing -> pc s = PcCmd k -> must_cancel s = true -> interrupted s = true ->
-             p_infl q = [m] -> RespsOK (List.length (p_fl q)) s -> Inv s os
+  | I_rk q : Core q s os -> state s = Running -> pc s = PcCmd KCkptSleep -> must_cancel s = false -> permit s = true ->
+             p_infl q = [] -> RespsOK (List.length (p_fl q)) s -> Inv s os
+  | I_pc q k : Core q s os -> state s = Pausing -> pc s = PcCmd k -> must_cancel s = true -> interrupted s = true ->
+             RespsOK (List.length (p_fl q)) s -> Inv s os
   | I_pd q : Core q s os -> state s = Paused -> pc s = PcPaused -> must_cancel s = false ->
              (interrupted s = true -> permit s = false) -> (interrupted s = false -> p_infl q = []) ->
              RespsOK (S (List.length (p_fl q))) s -> Inv s os
@@ -131,7 +133,7 @@ Inductive Inv (s : st) (os : list obs) : Prop :=
 (* ------------------------------------------------------------------ the fields the invariant reads *)
 Definition lsame (s s' : st) : Prop :=
   cache s' = cache s /\ plans s' = plans s /\ uid_supply s' = uid_supply s /\ bundlers s' = bundlers s /\
-  exc_slot s' = exc_slot s /\ stashed s' = stashed s /\ deferred s' = deferred s /\ rewindable s' = rewindable s /\
+  exc_slot s' = exc_slot s /\ stashed s' = stashed s /\ True /\ rewindable s' = rewindable s /\
   record_intr s' = record_intr s /\ main_err s' = main_err s.
 Definition csame (s s' : st) : Prop :=
   lsame s s' /\ state s' = state s /\ pc s' = pc s /\ must_cancel s' = must_cancel s /\ permit s' = permit s /\
@@ -140,7 +142,7 @@ Definition csame (s s' : st) : Prop :=
 Lemma Link_ext q s s' : lsame s s' -> Link q s -> Link q s'.
 Proof.
   intros (A1 & A2 & A3 & A4 & A5 & A6 & A7 & A8 & A9 & A10) (B1 & B2 & B3 & B4 & B5 & B6 & B7 & B8 & B9 & B10).
-  unfold Link. rewrite A1, A2, A3, A4, A5, A6, A7, A8, A9, A10. repeat split; assumption.
+  unfold Link. rewrite A1, A2, A3, A4, A5, A6, A8, A9, A10. repeat split; assumption.
 Qed.
 Lemma dsame_lsame s s' : dsame s s' -> lsame s s'.
 Proof.
@@ -167,7 +169,8 @@ Proof.
      | q (HP & HLk & HD) Hst Hpc Hmc Hpm Hin Hrs
      | q k m (HP & HLk & HD) Hst Hpc Hmc Hpm Hin Hkm Hrs Hlm
      | q (HP & HLk & HD) Hst Hpc Hmc Hit Hin Hrs
-     | q k m (HP & HLk & HD) Hst Hpc Hmc Hit Hin Hrs
+     | q (HP & HLk & HD) Hst Hpc Hmc Hpm Hin Hrs
+     | q k (HP & HLk & HD) Hst Hpc Hmc Hit Hrs
      | q (HP & HLk & HD) Hst Hpc Hmc Hip Hii Hrs
      | (F1 & F2 & F3 & F4 & F5) Hst Hpc Hmc
      | (F1 & F2 & F3 & F4 & F5) Hst Hpc Hmc
@@ -177,7 +180,8 @@ Proof.
   - eapply I_rs; fin_csame.
   - eapply (I_rc _ _ q k m); fin_csame.
   - eapply I_ps; fin_csame.
-  - eapply (I_pc _ _ q k m); fin_csame.
+  - eapply I_rk with (q := q); fin_csame.
+  - eapply (I_pc _ _ q k); fin_csame.
   - eapply I_pd; fin_csame.
   - eapply I_final; try congruence. unfold FinCore. rewrite A2, A4, A6, A10. auto.
   - eapply I_late; try congruence. unfold FinCore. rewrite A2, A4, A6, A10. auto.
@@ -190,7 +194,8 @@ Proof.
      | q (HP & HLk & HD) Hst Hpc Hmc Hpm Hin Hrs
      | q k m (HP & HLk & HD) Hst Hpc Hmc Hpm Hin Hkm Hrs Hlm
      | q (HP & HLk & HD) Hst Hpc Hmc Hit Hin Hrs
-     | q k m (HP & HLk & HD) Hst Hpc Hmc Hit Hin Hrs
+     | q (HP & HLk & HD) Hst Hpc Hmc Hpm Hin Hrs
+     | q k (HP & HLk & HD) Hst Hpc Hmc Hit Hrs
      | q (HP & HLk & HD) Hst Hpc Hmc Hip Hii Hrs
      | (F1 & F2 & F3 & F4 & F5) Hst Hpc Hmc
      | (F1 & F2 & F3 & F4 & F5) Hst Hpc Hmc
@@ -219,7 +224,8 @@ Proof.
      | q (HP & HLk & HD) Hst Hpc Hmc Hpm Hin Hrs
      | q k m (HP & HLk & HD) Hst Hpc Hmc Hpm Hin Hkm Hrs Hlm
      | q (HP & HLk & HD) Hst Hpc Hmc Hit Hin Hrs
-     | q k m (HP & HLk & HD) Hst Hpc Hmc Hit Hin Hrs
+     | q (HP & HLk & HD) Hst Hpc Hmc Hpm Hin Hrs
+     | q k (HP & HLk & HD) Hst Hpc Hmc Hit Hrs
      | q (HP & HLk & HD) Hst Hpc Hmc Hip Hii Hrs
      | (F1 & F2 & F3 & F4 & F5) Hst Hpc Hmc
      | (F1 & F2 & F3 & F4 & F5) Hst Hpc Hmc
@@ -229,6 +235,7 @@ Proof.
   - eapply I_rc; try eassumption; [split; [exact HP | split; [exact HLk | apply Docs_neutral; assumption]]|].
     rewrite last_msg_app. destruct HN as (_ & _ & _ & N4). rewrite N4. assumption.
   - eapply I_ps; try eassumption. split; [exact HP | split; [exact HLk | apply Docs_neutral; assumption]].
+  - eapply I_rk; try eassumption. split; [exact HP | split; [exact HLk | apply Docs_neutral; assumption]].
   - eapply I_pc; try eassumption. split; [exact HP | split; [exact HLk | apply Docs_neutral; assumption]].
   - eapply I_pd; try eassumption. split; [exact HP | split; [exact HLk | apply Docs_neutral; assumption]].
   - eapply I_final; try eassumption. unfold FinCore. repeat (split; [assumption|]). apply DocsAll_neutral; assumption.
@@ -559,28 +566,43 @@ Proof.
     rewrite Hae in L4.
     edestruct exec_head with (s := pre_exec P D sA m) (m := m) (a0 := p_a0 q) (acur := p_acur q) (acur' := acur')
                              (aend' := aend') (dm := dm) (cc := if cacheable (mcmd m) then p_c q ++ [m] else p_c q) as
-        (s3 & o3 & v' & Hex & K3 & C3 & U3 & Q3 & F3 & S3 & HBR3); try eassumption.
+        (s3 & o3 & cr & Hex & Hcr & K3 & C3 & U3 & Q3 & F3 & S3 & HBR3); try eassumption.
     { rewrite BB, HbA. exact L4. }
     { rewrite UB, HuA. exact L3. }
-    { destruct KB as (_ & _ & _ & _ & _ & _ & _ & _ & _ & KB10 & _). rewrite KB10. subst sA. simp_st. exact L7. }
     { destruct KB as (_ & _ & _ & _ & _ & _ & _ & _ & _ & _ & _ & KB12 & _). rewrite KB12. subst sA. simp_st. exact L9. }
-    eexists. eexists. split.
-    { eapply task_msg_done; try eassumption. eapply keeps_trans; eassumption. }
-    intros Hreads.
-    destruct (out_done po m o3 v' Hpo Q3) as (O1 & O2 & O3 & O4).
     assert (Hc3 : cache s3 = Some []).
     { rewrite C3. destruct (mcmd m) eqn:Ecmd; try reflexivity. rewrite CB, open_run_cacheable. rewrite (Hopen eq_refl). reflexivity. }
-    kdestr. subst sA. simp_st. rewrite Hpl in *. cbn [List.tl] in *.
-    eapply I_rs with (q := mkpos (p_pre q ++ p_c q ++ [m]) [] [] [] u' p' stt acur' acur' aend' (p_d0 q ++ p_dc q ++ dm) []);
-      simp_st; try congruence.
-    + split; [exact HP3|]. split.
-      * unfold Link, mkpos; cbn [p_c p_infl p_fl p_p p_started p_acur p_a0 p_aend]. simp_st.
-        cbn [map app] in *. repeat split; try congruence.
-      * eapply Docs_head with (q := q) (dm := dm); try reflexivity; try eassumption.
-        -- rewrite O1. exact F3.
-        -- rewrite O2. exact S3.
-    + reflexivity.
-    + exists (v' :: vs). cbn [map List.length]. split; [simp_st; congruence | cbn [p_fl mkpos List.length] in *; lia].
+    set (q3 := mkpos (p_pre q ++ p_c q ++ [m]) [] [] [] u' p' stt acur' acur' aend' (p_d0 q ++ p_dc q ++ dm) []).
+    destruct Hcr as [(v' & ->) | (-> & Hck)].
+    + eexists. eexists. split.
+      { eapply task_msg_done; try eassumption. eapply keeps_trans; eassumption. }
+      intros Hreads.
+      destruct (out_done po m o3 v' Hpo Q3) as (O1 & O2 & O3 & O4).
+      kdestr. subst sA. simp_st. rewrite Hpl in *. cbn [List.tl] in *.
+      eapply I_rs with (q := q3); simp_st; try congruence.
+      * split; [exact HP3|]. split.
+        -- unfold Link, q3, mkpos; cbn [p_c p_infl p_fl p_p p_started p_acur p_a0 p_aend]. simp_st.
+           cbn [map app] in *. repeat split; try congruence.
+        -- eapply Docs_head with (q := q) (dm := dm); try reflexivity; try eassumption.
+           ++ rewrite O1. exact F3.
+           ++ rewrite O2. exact S3.
+      * reflexivity.
+      * exists (v' :: vs). cbn [map List.length]. split; [simp_st; congruence | cbn [p_fl q3 mkpos List.length] in *; lia].
+    + (* a checkpoint reached while a deferred pause is pending: the grace sleep *)
+      eexists. eexists. split.
+      { eapply task_msg_susp; try eassumption. }
+      intros _.
+      destruct (out_susp po m o3 Hpo Q3) as (O1 & O2 & O3 & O4).
+      kdestr. subst sA. simp_st. rewrite Hpl in *. cbn [List.tl] in *.
+      eapply I_rk with (q := q3); simp_st; try congruence.
+      * split; [exact HP3|]. split.
+        -- unfold Link, q3, mkpos; cbn [p_c p_infl p_fl p_p p_started p_acur p_a0 p_aend]. simp_st.
+           cbn [map app] in *. repeat split; try congruence.
+        -- eapply Docs_head with (q := q) (dm := dm); try reflexivity; try eassumption.
+           ++ rewrite O1. exact F3.
+           ++ rewrite O2. exact S3.
+      * reflexivity.
+      * exists vs. split; [simp_st; congruence | cbn [p_fl q3 mkpos List.length] in *; lia].
 Qed.
 
 
@@ -679,7 +701,7 @@ Proof. intros H. rewrite task_step_tentry, H. reflexivity. Qed.
 (* a command that was waiting on a future completes *)
 Definition nsame (s s' : st) : Prop :=
   cache s' = cache s /\ plans s' = plans s /\ uid_supply s' = uid_supply s /\
-  exc_slot s' = exc_slot s /\ stashed s' = stashed s /\ deferred s' = deferred s /\ rewindable s' = rewindable s /\
+  exc_slot s' = exc_slot s /\ stashed s' = stashed s /\ True /\ rewindable s' = rewindable s /\
   record_intr s' = record_intr s /\ main_err s' = main_err s.
 Ltac nsame_tac := unfold nsame; simp_st; repeat split; reflexivity.
 
@@ -782,19 +804,19 @@ Qed.
 (* a cancelled task parks *)
 Lemma step_task_pause (s : st) os q :
   Core q s os -> state s = Pausing -> (pc s = PcSleep0 /\ p_infl q = [] /\ RespsOK (S (List.length (p_fl q))) s \/
-                                       exists k m, pc s = PcCmd k /\ p_infl q = [m] /\ RespsOK (List.length (p_fl q)) s) ->
+                                       exists k, pc s = PcCmd k /\ RespsOK (List.length (p_fl q)) s) ->
   must_cancel s = true -> interrupted s = true ->
   StepOK s os (task_step s).
 Proof.
   intros (HP & HLk & HD) Hst Hcase Hmc Hit.
   pose proof HLk as (L1 & L2 & L3 & L4 & L5 & L6 & L7 & L8 & L9 & L10).
   destruct (task_pause P presume plan_of D dev Hdev s (p_c q ++ p_infl q)) as (s3 & o23 & E & S3 & Q3); try assumption.
-  { destruct Hcase as [(Hpc & _) | (k & m & Hpc & _)]; [left; exact Hpc | right; exists k; exact Hpc]. }
+  { destruct Hcase as [(Hpc & _) | (k & Hpc & _)]; [left; exact Hpc | right; exists k; exact Hpc]. }
   rewrite E. unfold StepOK. cbn [fst snd]. intros _.
   apply Inv_neutral.
   { cbn [app]. apply neutral_app; [apply devonly_neutral; exact Q3 | apply neutral_intro; reflexivity]. }
   pose proof (dsame_nsame _ _ S3) as N3. destruct S3 as ((K1 & K2 & K3 & K4 & K5 & K6 & K7 & K8 & K9 & K10 & K11 & K12 & K13) & C1 & C2 & C3).
-  destruct Hcase as [(Hpc & Hin & (vs & Hrs & Hlen)) | (k & m & Hpc & Hin & (vs & Hrs & Hlen))]; rewrite Hpc in *; simp_st.
+  destruct Hcase as [(Hpc & Hin & (vs & Hrs & Hlen)) | (k & Hpc & (vs & Hrs & Hlen))]; rewrite Hpc in *; simp_st.
   - eapply I_pd with (q := q); simp_st; try congruence.
     + split; [exact HP|]. split; [|exact HD].
       eapply Link_nsame; [| |exact HLk]; [unfold nsame in *; simp_st; decompose [and] N3; repeat split; congruence | simp_st; congruence].
@@ -803,6 +825,30 @@ Proof.
     + split; [exact HP|]. split; [|exact HD].
       eapply Link_nsame; [| |exact HLk]; [unfold nsame in *; simp_st; decompose [and] N3; repeat split; congruence | simp_st; congruence].
     + exists (VNone :: vs). cbn [map List.length]. split; [simp_st; congruence | lia].
+Qed.
+
+Lemma nobintr_BR bs a0 acur aend : BR bs a0 acur aend -> nobintr bs = true.
+Proof.
+  unfold RE_PointsB.BR. destruct (a_run acur).
+  - intros (b & X & Y & r0 & rend & -> & _ & _ & _ & (_ & R2 & _) & _). cbn. rewrite R2. reflexivity.
+  - intros ->. reflexivity.
+Qed.
+
+(* the grace sleep after a checkpoint reached with a deferred pause pending is over *)
+Lemma step_task_rk (s : st) os q :
+  Core q s os -> state s = Running -> pc s = PcCmd KCkptSleep -> must_cancel s = false -> permit s = true ->
+  p_infl q = [] -> RespsOK (List.length (p_fl q)) s -> StepOK s os (task_step s).
+Proof.
+  intros (HP & HLk & HD) Hst Hpc Hmc Hpm Hin (vs & Hrs & Hlen).
+  pose proof HLk as (L1 & L2 & L3 & L4 & L5 & L6 & L7 & L8 & L9 & L10).
+  rewrite (task_ckpt_sleep P presume plan_of D dev s (p_c q ++ p_infl q) Hpc Hmc Hst Hpm L6 L1 (nobintr_BR _ _ _ _ L4))
+    by (rewrite Hrs, L2, map_length, app_length, map_length; cbn; lia).
+  unfold StepOK. cbn [fst snd]. intros _.
+  apply Inv_neutral; [apply neutral_intro; reflexivity|].
+  unfold RE.cancel_task. simp_st. rewrite Hpc. simp_st.
+  eapply I_ps with (q := q); simp_st; try congruence; try reflexivity.
+  - split; [exact HP|]. split; [|exact HD]. eapply Link_nsame; [nsame_tac | reflexivity | exact HLk].
+  - exists (VNone :: vs). cbn [map List.length]. split; [simp_st; congruence | lia].
 Qed.
 
 (* the parked task is scheduled *)
@@ -898,7 +944,8 @@ Ltac inv_cases HI :=
                  | q (HP & HLk & HD) Hst Hpc Hmc Hpm Hin Hrs
                  | q k m (HP & HLk & HD) Hst Hpc Hmc Hpm Hin Hkm Hrs Hlm
                  | q (HP & HLk & HD) Hst Hpc Hmc Hit Hin Hrs
-                 | q k m (HP & HLk & HD) Hst Hpc Hmc Hit Hin Hrs
+                 | q (HP & HLk & HD) Hst Hpc Hmc Hpm Hin Hrs
+                 | q k (HP & HLk & HD) Hst Hpc Hmc Hit Hrs
                  | q (HP & HLk & HD) Hst Hpc Hmc Hip Hii Hrs
                  | (F1 & F2 & F3 & F4 & F5) Hst Hpc Hmc
                  | (F1 & F2 & F3 & F4 & F5) Hst Hpc Hmc
@@ -918,7 +965,9 @@ Proof.
     split; [exact HP | split; [eapply Link_nsame; [nsame_tac | reflexivity | exact HLk] | exact HD]].
   - eapply I_ps with (q := q); simp_st; try assumption.
     split; [exact HP | split; [eapply Link_nsame; [nsame_tac | reflexivity | exact HLk] | exact HD]].
-  - eapply (I_pc _ _ q k m); simp_st; try assumption.
+  - eapply I_rk with (q := q); simp_st; try assumption; try reflexivity.
+    split; [exact HP | split; [eapply Link_nsame; [nsame_tac | reflexivity | exact HLk] | exact HD]].
+  - eapply (I_pc _ _ q k); simp_st; try assumption.
     split; [exact HP | split; [eapply Link_nsame; [nsame_tac | reflexivity | exact HLk] | exact HD]].
   - eapply I_pd with (q := q); simp_st; try assumption.
     + split; [exact HP | split; [eapply Link_nsame; [nsame_tac | reflexivity | exact HLk] | exact HD]].
@@ -945,7 +994,7 @@ Proof.
   intros HI. destruct (mark_cached_same s run d) as (N & M1 & M2 & M3 & M4 & M5 & M6 & M7).
   assert (HLk' : forall q, Link q s -> Link q (RE.mark_cached P D s run d)).
   { intros q (L1 & L2 & L3 & L4 & L5 & L6 & L7 & L8 & L9 & L10). destruct N as (A1 & A2 & A3 & A5 & A6 & A7 & A8 & A9 & A10).
-    unfold Link. rewrite A1, A2, A3, A5, A6, A7, A8, A9, A10. repeat split; try assumption. apply mark_cached_BR. exact L4. }
+    unfold Link. rewrite A1, A2, A3, A5, A6, A8, A9, A10. repeat split; try assumption. apply mark_cached_BR. exact L4. }
   assert (HC' : forall q, Core q s os -> Core q (RE.mark_cached P D s run d) os).
   { intros q (A & B & C). split; [exact A | split; [apply HLk'; exact B | exact C]]. }
   inv_cases HI.
@@ -954,7 +1003,8 @@ Proof.
   - eapply I_rs with (q := q); try congruence; try (apply HC'; split; [assumption | split; assumption]); try (eapply RespsOK_ext; eassumption).
   - eapply (I_rc _ _ q k m); try congruence; try assumption; try (apply HC'; split; [assumption | split; assumption]); try (eapply RespsOK_ext; eassumption).
   - eapply I_ps with (q := q); try congruence; try (apply HC'; split; [assumption | split; assumption]); try (eapply RespsOK_ext; eassumption).
-  - eapply (I_pc _ _ q k m); try congruence; try assumption; try (apply HC'; split; [assumption | split; assumption]); try (eapply RespsOK_ext; eassumption).
+  - eapply I_rk with (q := q); try congruence; try (apply HC'; split; [assumption | split; assumption]); try (eapply RespsOK_ext; eassumption).
+  - eapply (I_pc _ _ q k); try congruence; try assumption; try (apply HC'; split; [assumption | split; assumption]); try (eapply RespsOK_ext; eassumption).
   - eapply I_pd with (q := q); try congruence; try (apply HC'; split; [assumption | split; assumption]); try (eapply RespsOK_ext; eassumption);
       try (intros Hi; rewrite M4; apply Hip; congruence); try (intros Hi; apply Hii; congruence).
   - destruct N as (A1 & A2 & A3 & A5 & A6 & A7 & A8 & A9 & A10).
@@ -972,12 +1022,6 @@ Proof.
   destruct r as [v | e]; [reflexivity | destruct e; try discriminate Hro; reflexivity].
 Qed.
 
-Lemma nobintr_BR bs a0 acur aend : BR bs a0 acur aend -> nobintr bs = true.
-Proof.
-  unfold RE_PointsB.BR. destruct (a_run acur).
-  - intros (b & X & Y & r0 & rend & -> & _ & _ & _ & (_ & R2 & _) & _). cbn. rewrite R2. reflexivity.
-  - intros ->. reflexivity.
-Qed.
 
 Lemma Inv_nobintr (s : st) os : Inv s os -> state s <> Idle -> nobintr (bundlers s) = true.
 Proof.
@@ -993,23 +1037,29 @@ Proof.
   destruct e; apply neutral_intro; reflexivity.
 Qed.
 
-Lemma step_reqpause (s : st) os :
-  Inv s os -> Inv (fst (step s (EvReqPause false))) (os ++ snd (step s (EvReqPause false))).
+Lemma step_reqpause (s : st) os d :
+  Inv s os -> Inv (fst (step s (EvReqPause d))) (os ++ snd (step s (EvReqPause d))).
 Proof.
   intros HI. cbn [RE.step].
   assert (Href : allowed (state s) Pausing = false ->
-                 Inv (fst (let '(s1, e, o) := RE.request_pause P D s false in
+                 Inv (fst (let '(s1, e, o) := RE.request_pause P D s d in
                            let '(s2, o2) := RE.req_result P D s1 e in (s2, o ++ o2)))
-                     (os ++ snd (let '(s1, e, o) := RE.request_pause P D s false in
+                     (os ++ snd (let '(s1, e, o) := RE.request_pause P D s d in
                                  let '(s2, o2) := RE.req_result P D s1 e in (s2, o ++ o2)))).
-  { intros Ha. rewrite (request_pause_refused P D s Ha).
+  { intros Ha. unfold RE.request_pause. rewrite Ha. cbn [negb].
     destruct (req_result_csame s (Some ETransition)) as [Hc Hn].
     destruct (RE.req_result P D s (Some ETransition)) as [s2 o2]. cbn [fst snd app] in *.
     apply Inv_neutral; [exact Hn|]. eapply Inv_csame; eassumption. }
+  destruct d.
+  { (* deferred: only the flag *)
+    destruct (allowed (state s) Pausing) eqn:Ha; [|apply Href; reflexivity].
+    unfold RE.request_pause. rewrite Ha. cbn [negb].
+    destruct (req_result_csame (RE.set_deferred P D s true) None) as [Hc Hn].
+    destruct (RE.req_result P D (RE.set_deferred P D s true) None) as [s2 o2]. cbn [fst snd app] in *.
+    apply Inv_neutral; [exact Hn|]. eapply Inv_csame; [exact Hc|]. eapply Inv_csame; [|exact HI]. csame_tac. }
   assert (Hacc : state s = Running ->
                  (forall s1, state s1 = Pausing -> must_cancel s1 = true -> interrupted s1 = true -> pc s1 = pc s ->
-                             permit s1 = permit s -> resps s1 = resps s -> deferred s1 = false ->
-                             nsame s (RE.set_deferred P D s1 (deferred s)) -> bundlers s1 = bundlers s -> Inv s1 os) ->
+                             permit s1 = permit s -> resps s1 = resps s -> nsame s s1 -> bundlers s1 = bundlers s -> Inv s1 os) ->
                  match pc s with PcSleep0 | PcCmd _ | PcFinalSleep _ => True | _ => False end ->
                  Inv (fst (let '(s1, e, o) := RE.request_pause P D s false in
                            let '(s2, o2) := RE.req_result P D s1 e in (s2, o ++ o2)))
@@ -1025,33 +1075,32 @@ Proof.
     eapply Inv_csame; [exact Hc|]. unfold RE.cancel_task.
     destruct (pc s) eqn:Epc; try contradiction; simp_st; rewrite Epc; apply Hk; simp_st; try reflexivity; try assumption;
       nsame_tac. }
-  assert (Hlk : forall q s1, Link q s -> deferred s1 = false -> nsame s (RE.set_deferred P D s1 (deferred s)) ->
-                             bundlers s1 = bundlers s -> Link q s1).
-  { intros q s1 HLk E7 (A1 & A2 & A3 & A5 & A6 & A7 & A8 & A9 & A10) A4. simp_st.
-    eapply Link_ext; [|exact HLk]. unfold lsame. repeat split; try assumption.
-    destruct HLk as (_ & _ & _ & _ & _ & _ & L7 & _). congruence. }
   inv_cases HI.
   - apply Href. rewrite Hst. apply allowed_idle_pausing.
   - apply Hacc; try assumption; [|rewrite Hpc; exact I].
-    intros s1 E1 E2 E3 E4 E5 E6 E7 E8 E9.
+    intros s1 E1 E2 E3 E4 E5 E6 E7 E8.
     eapply I_ps with (q := q); try congruence.
-    + split; [exact HP | split; [eapply Hlk; eassumption | exact HD]].
+    + split; [exact HP | split; [eapply Link_nsame; eassumption | exact HD]].
     + eapply RespsOK_ext; eassumption.
   - apply Hacc; try assumption; [|rewrite Hpc; exact I].
-    intros s1 E1 E2 E3 E4 E5 E6 E7 E8 E9.
-    eapply (I_pc _ _ q k m); try congruence.
-    + split; [exact HP | split; [eapply Hlk; eassumption | exact HD]].
+    intros s1 E1 E2 E3 E4 E5 E6 E7 E8.
+    eapply (I_pc _ _ q k); try congruence.
+    + split; [exact HP | split; [eapply Link_nsame; eassumption | exact HD]].
     + eapply RespsOK_ext; eassumption.
   - apply Href. rewrite Hst. apply allowed_pausing_pausing.
+  - apply Hacc; try assumption; [|rewrite Hpc; exact I].
+    intros s1 E1 E2 E3 E4 E5 E6 E7 E8.
+    eapply (I_pc _ _ q KCkptSleep); try congruence.
+    + split; [exact HP | split; [eapply Link_nsame; eassumption | exact HD]].
+    + eapply RespsOK_ext; eassumption.
   - apply Href. rewrite Hst. apply allowed_pausing_pausing.
   - apply Href. rewrite Hst. apply allowed_paused_pausing.
   - apply Hacc; try assumption; [|rewrite Hpc; exact I].
-    intros s1 E1 E2 E3 E4 E5 E6 E7 (A1 & A2 & A3 & A5 & A6 & A7 & A8 & A9 & A10) A4. simp_st.
+    intros s1 E1 E2 E3 E4 E5 E6 (A1 & A2 & A3 & A5 & A6 & A7 & A8 & A9 & A10) A4.
     eapply I_late; try congruence. unfold FinCore. rewrite A2, A4, A6, A10. auto.
   - apply Href. rewrite Hst. apply allowed_pausing_pausing.
   - apply Href. rewrite Hst. apply allowed_idle_pausing.
 Qed.
-
 
 (* resume() *)
 Lemma step_resume (s : st) os :
@@ -1124,13 +1173,14 @@ Proof.
     + apply (step_task_rs s os q); try assumption. split; [exact HP | split; [exact HLk | exact HD]].
     + apply (step_task_rc s os q k m); try assumption. split; [exact HP | split; [exact HLk | exact HD]].
     + apply (step_task_pause s os q); try assumption; [split; [exact HP | split; [exact HLk | exact HD]]|]. left. auto.
-    + apply (step_task_pause s os q); try assumption; [split; [exact HP | split; [exact HLk | exact HD]]|]. right. exists k, m. auto.
+    + apply (step_task_rk s os q); try assumption. split; [exact HP | split; [exact HLk | exact HD]].
+    + apply (step_task_pause s os q); try assumption; [split; [exact HP | split; [exact HLk | exact HD]]|]. right. exists k. auto.
     + apply (step_task_pd s os q); try assumption. split; [exact HP | split; [exact HLk | exact HD]].
     + apply step_task_final; [unfold FinCore; auto | left; auto | exact Hpc].
     + apply step_task_final; [unfold FinCore; auto | right; auto | exact Hpc].
     + eapply step_task_done; eassumption.
   - (* pause request *)
-    destruct d; [discriminate Hok|]. apply step_reqpause. exact HI.
+    apply step_reqpause. exact HI.
   - (* status *)
     destruct ok; [|discriminate Hok]. apply step_status. exact HI.
   - (* caching tasks done *)
